@@ -35,6 +35,7 @@ class Counters(object):
 
 
 COUNTERS = Counters()
+ITERATION_CAP = 5000
 
 
 def f_if_stmt(cond, body, orelse, get_state, set_state, symbol_names, nouts):
@@ -64,6 +65,8 @@ def f_while_stmt(test, body, get_state, set_state, symbol_names, opts):
         body()
         carried = get_state()
         trips += 1
+        if trips > ITERATION_CAP:      # a loop whose counter is not carried would spin forever: make it a failing outcome
+            raise RuntimeError('tracing backend: iteration cap exceeded (loop state not carried?)')
     if trips == 0:
         COUNTERS.zero_trip += 1
 
@@ -137,7 +140,9 @@ def same_generated_code(native_source, tracing_source):
     """The two conversions of one function differ only in the embedded options (recursive=False for the tracing one)."""
     if native_source is None or tracing_source is None:
         return False
-    norm = lambda s: s.replace('recursive=False', 'recursive=True').replace('internal_convert_user_code=False', 'internal_convert_user_code=True')
+    import re
+    opts = re.compile(r'ag__\.ConversionOptions\((?:[^()]|\([^()]*\))*\)|ag__\.STD\b')
+    norm = lambda s: opts.sub('OPTS', s)
     return norm(native_source) == norm(tracing_source)
 
 
